@@ -42,7 +42,9 @@ def gen_case(r, i, tier):
     if width == "f32":
         x = x.astype(np.float32).astype(np.float64)
     return {"kind": kind, "ns": nsn, "width": width, "n": n, "d": d, "x": x.tolist(), "ll": ll.tolist(), "lp": lp.tolist(),
-            "lq": lq.tolist(), "beta": b0, "beta_new": b1, "n_out": None if r.random() < 0.5 else int(r.integers(1, 2 * n + 2)),
+            "lq": lq.tolist(), "beta": b0, "beta_new": b1,
+            # the requested size: default, any size up to twice the population, and the boundary request of an EMPTY population
+            "n_out": 0 if i % 11 == 5 else (None if r.random() < 0.5 else int(r.integers(1, 2 * n + 2))),
             "seed": int(r.integers(1 << 30)), "touch": bool(r.random() < 0.3),
             "ll_first": (ll + r.normal(0, 1, n)).tolist()}
 
@@ -80,7 +82,7 @@ def check_cases(chk, cases):
     for c, rres, rep in zip(cases, res, reps):
         chk.count(f"ns:{c['ns']}/{c['width']}")
         chk.count(f"pop:{c['kind']}")
-        chk.count("n_out:" + ("default" if c["n_out"] is None else "given"))
+        chk.count("n_out:" + ("default" if c["n_out"] is None else "zero" if c["n_out"] == 0 else "given"))
         key = json.dumps([c["ns"], c["width"], c["ll"][:5], c["beta"], c["beta_new"], c["n_out"], c["seed"]])
         lw = np.asarray(c["ll"]) + np.asarray(c["lp"]) - np.asarray(c["lq"])
         chk.case({k: c[k] for k in ("kind", "ns", "width", "n", "d", "beta", "beta_new", "n_out")} if chk.evaluations < 10 else None,
